@@ -609,26 +609,27 @@ func (x *cliExec) classify(s *stepInfo, what string) (string, string) {
 		ci, ok := x.creator[s.hit]
 		if ok {
 			c := x.steps[ci]
+			how := "none"
+			switch {
+			case c.real.Killed:
+				how = "kill"
+			case c.real.Panic != "":
+				how = "panic"
+			case c.run.SinkLimit != nil && c.real.Status != 0:
+				how = "sink"
+			case c.real.Status != 0:
+				how = "error"
+			}
+			if how != "none" {
+				// the entry being served was written by a run that failed
+				return "poisoned-after-failure", how
+			}
 			da := argvDiff(c.run.Argv, s.run.Argv)
 			if da != "" {
 				return "stale-hit", cmd + ":" + da
 			}
 			if c.inputSig != s.inputSig || c.run.Stdin != s.run.Stdin {
 				return "stale-hit", cmd + ":input"
-			}
-			how := "error"
-			switch {
-			case c.real.Killed:
-				how = "kill"
-			case c.real.Panic != "":
-				how = "panic"
-			case c.run.SinkLimit != nil:
-				how = "sink"
-			case c.real.Status == 0:
-				how = "none"
-			}
-			if how != "none" {
-				return "poisoned-after-failure", how
 			}
 			return "hit-differs-from-reference", cmd + ":" + what
 		}
